@@ -2,6 +2,7 @@ package c09
 
 import (
 	"fmt"
+	"strings"
 
 	"github.com/caddyserver/caddy/v2/modules/caddyhttp/reverseproxy"
 )
@@ -152,12 +153,35 @@ func (k *kase) oracleCounted(st step, moved *cfgGen) {
 		what = "the upstream closed the connection without answering"
 	case st.op == 'O' && st.out == "rst" && counting && n > 1+moved.st.r:
 		what = fmt.Sprintf("at most 1+retries=%d attempts can have failed", 1+moved.st.r)
+	case st.op == 'N' && st.badB != 0 && k.refusedForDialInfo() && n > 0 && (n > moved.st.r || !k.anyBackendDown()):
+		// the attempt that ended the request was never sent: what was counted can only be refused
+		// dials of earlier attempts, i.e. at most `retries` of them and only with a backend down
+		what = "the request was refused because its dial information could not be filled in: that attempt reached no upstream"
 	case st.op == 'N' && n > 1+moved.st.r:
 		what = fmt.Sprintf("at most 1+retries=%d attempts can have failed", 1+moved.st.r)
 	}
 	if what != "" {
 		k.fail("wrong-outcome-counted", fmt.Sprintf("step %s counted %d failure(s) but %s", st.text, n, what))
 	}
+}
+
+// refusedForDialInfo: the request of the step just executed returned proxyLoopIteration's
+// "making dial info" error.
+func (k *kase) refusedForDialInfo() bool {
+	if len(k.reqs) == 0 {
+		return false
+	}
+	r := k.reqs[len(k.reqs)-1]
+	return r.done && strings.Contains(r.errText, "making dial info")
+}
+
+func (k *kase) anyBackendDown() bool {
+	for _, b := range k.backends {
+		if b.l == nil {
+			return true
+		}
+	}
+	return false
 }
 
 // wantStrikes: how many unhealthy_status entries a status code matches — an entry is either the
